@@ -260,8 +260,11 @@ def list_child_segments(
 def extract_identifier(col_segment: BaseSegment) -> str:
     identifiers = list_child_segments(col_segment)
     if col_segment.type == "alias_expression":
-        # an alias may carry a column list like `tab AS t (c1, c2)`, which is not part of its name
-        identifiers = [i for i in identifiers if i.type != "bracketed"]
+        # neither the alias operator (AS, or = in tsql where it follows the name) nor the column list an alias
+        # may carry like `tab AS t (c1, c2)` is part of its name
+        identifiers = [
+            i for i in identifiers if i.type not in ("alias_operator", "bracketed")
+        ]
     # exasol lexes [x] as one symbol, such a segment has no identifier child, keep its text
     col_identifier = identifiers[-1] if identifiers else col_segment
     return str(col_identifier.raw)
